@@ -30,7 +30,7 @@ THEOREMS = ["C04_recv_contract", "C04_recv_all_exact", "C04_fuel_store_loop", "C
             "C04_chunking_recv_all", "C04_chunking_receive_pdu", "C04_chunking_sync", "C04_chunking_step", "C04_chunking_run",
             "C04_accepted", "C04_buffer", "C04_check_size_local", "C04_consumers_local", "C04_receive_frame",
             "C04_reject_length", "C04_reject_size", "C04_unknown_type", "C04_size_per_type", "C04_store_loop_fails",
-            "C04_sync_fails", "C04_step_fails", "C04_stored_prefix", "C04_stored_prefix_key_ok", "C04_check_size_translated",
+            "C04_sync_fails", "C04_step_fails", "C04_stored_prefix", "C04_stored_prefix_key_ok", "C04_prefix_check_translated", "C04_check_size_translated",
             "C04_check_size_reads_inside"]
 CORPUS = os.path.join(vlib.VERIF, "corpus", "C04")
 MAX = L.MAX
